@@ -83,7 +83,9 @@ def gen_parts(rng, ctxname, ids, off=False):
 
 
 def written_expr(rng, src, ctxname):
-    if rng.random() < .15:
+    if re.fullmatch(r'[A-Za-z_][A-Za-z0-9_]*', src) and rng.random() < .3:
+        src = rng.choice([' %s ', '\n %s\n', ' %s', '%s\t'])% src       # a plain name written with white space inside the braces
+    elif rng.random() < .15:
         src = exprs.spread(rng, src).replace('\r\n', '\n')        # the same expression written over several lines (CR/LF is C03's business)
     if ctxname == 'text':
         return exprs.encode_expr_for_markup(rng, src)
